@@ -196,6 +196,40 @@ pub fn rustls_server_config(id: &Ident) -> rustls::ServerConfig {
     rustls::ServerConfig::builder().with_no_client_auth().with_single_cert(chain, key).unwrap()
 }
 
+/// the older rustls acceptors of actix-tls (same certificate, each version's own config types)
+pub fn rustls22_server_config(id: &Ident) -> rustls_022::ServerConfig {
+    use rustls_pki_types::{CertificateDer, PrivateKeyDer, PrivatePkcs8KeyDer};
+    let chain: Vec<CertificateDer<'static>> = id.chain_der.iter().map(|d| CertificateDer::from(d.clone())).collect();
+    let key = PrivateKeyDer::Pkcs8(PrivatePkcs8KeyDer::from(id.key_der.clone()));
+    rustls_022::ServerConfig::builder().with_no_client_auth().with_single_cert(chain, key).unwrap()
+}
+pub fn rustls21_server_config(id: &Ident) -> rustls_021::ServerConfig {
+    let chain = id.chain_der.iter().map(|d| rustls_021::Certificate(d.clone())).collect();
+    rustls_021::ServerConfig::builder()
+        .with_safe_defaults()
+        .with_no_client_auth()
+        .with_single_cert(chain, rustls_021::PrivateKey(id.key_der.clone()))
+        .unwrap()
+}
+pub fn rustls20_server_config(id: &Ident) -> rustls_020::ServerConfig {
+    let chain = id.chain_der.iter().map(|d| rustls_020::Certificate(d.clone())).collect();
+    rustls_020::ServerConfig::builder()
+        .with_safe_defaults()
+        .with_no_client_auth()
+        .with_single_cert(chain, rustls_020::PrivateKey(id.key_der.clone()))
+        .unwrap()
+}
+pub fn native_acceptor(id: &Ident) -> tokio_native_tls::TlsAcceptor {
+    use openssl::{pkey::PKey, x509::X509};
+    let mut pem = Vec::new();
+    for d in &id.chain_der {
+        pem.extend(X509::from_der(d).unwrap().to_pem().unwrap());
+    }
+    let key = PKey::private_key_from_der(&id.key_der).unwrap().private_key_to_pem_pkcs8().unwrap();
+    let ident = tokio_native_tls::native_tls::Identity::from_pkcs8(&pem, &key).unwrap();
+    tokio_native_tls::TlsAcceptor::from(tokio_native_tls::native_tls::TlsAcceptor::new(ident).unwrap())
+}
+
 pub fn rustls_client_config(pki: &Pki) -> Arc<rustls::ClientConfig> {
     use rustls_pki_types::CertificateDer;
     let mut roots = rustls::RootCertStore::empty();
